@@ -40,7 +40,7 @@ def run_one(pid, name, inplace, tier="quick", seed="0"):
     else:
         try:
             for c in checks:
-                env = dict(os.environ, VERIF_SEED=seed, REPO=tree)
+                env = dict(os.environ, VERIF_SEED=seed, REPO=tree, VERIF_EVIDENCE_DIR=f'/tmp/seedrun_ev_{os.getpid()}')
                 env["PYTHONPATH"] = tree
                 t0 = time.time()
                 pr = subprocess.run([os.path.join(HERE, "check"), c, "--tier", tier], env=env,
@@ -63,6 +63,7 @@ def run_one(pid, name, inplace, tier="quick", seed="0"):
         sh("git -C /repo checkout -- .")
     else:
         sh(f"git -C /repo worktree remove --force {tree}")
+        sh(f"rm -rf /tmp/seedrun_ev_{os.getpid()}")
     # regenerated tables must be restored from the real tree
     subprocess.run([os.path.join(HERE, "check"), "--setup"], capture_output=True, text=True, cwd=HERE)
     return res
